@@ -17,6 +17,7 @@ def Stmt.terminates (exc : Bool) : Stmt → Bool
   | .failCpp _ _ => true
   | .failC _ _ => true
   | .exitTest => true
+  | .exitTestC => true
   | .throwStd => exc
   | .throwOther => exc
   | .mark _ => false
@@ -88,6 +89,45 @@ def postFailures (cfg : Cfg) (plugins : List Plugin) (t : Test) : List FailRec :
 def testFailures (cfg : Cfg) (plugins : List Plugin) (t : Test) : List FailRec :=
   preFailures cfg plugins t ++ testPhaseFailures cfg t ++ postFailures cfg plugins t
 
+/-! ## progress output without `-v` -/
+
+/-- "." for a test that runs, "!" for an ignored one -/
+def indicatorOf (cfg : Cfg) (t : Test) : String := if willRun cfg t then "." else "!"
+
+/-- the progress line: one indicator per test, a line break after every 50th (`dots` printed so far) -/
+def progressToks : List String → Nat → List String
+  | [], _ => []
+  | i :: rest, dots => (if (dots + 1) % 50 = 0 then [i, "\n"] else [i]) ++ progressToks rest (dots + 1)
+
+/-! ## rethrow mode: the exception that leaves the run -/
+
+/-- the std / foreign exception that leaves the phase -/
+def throwsOut (exc : Bool) : List Stmt → Option ExcKind
+  | [] => none
+  | .throwStd :: rest => if exc then some .std else throwsOut exc rest
+  | .throwOther :: rest => if exc then some .other else throwsOut exc rest
+  | s :: rest => if s.terminates exc then none else throwsOut exc rest
+
+def Phase.idx : Phase → Nat
+  | .setup => 0
+  | .body => 1
+  | .teardown => 2
+
+/-- the first phase of the test (among those that run) that a std / foreign exception leaves -/
+def firstThrow (cfg : Cfg) (t : Test) : Option (Phase × ExcKind) :=
+  ((phasesRun cfg t).filterMap (fun ph => (throwsOut cfg.exceptions (stmtsOf t ph)).map (fun k => (ph, k)))).head?
+
+/-- the phases entered before the exception of phase `ph` leaves the test -/
+def phasesUpTo (cfg : Cfg) (t : Test) (ph : Phase) : List Phase :=
+  (phasesRun cfg t).filter (fun q => q.idx ≤ ph.idx)
+
+/-- in rethrow mode: what the throwing test did before the exception left it -/
+def marksUpTo (cfg : Cfg) (t : Test) (ph : Phase) : List (Phase × Nat) :=
+  (phasesUpTo cfg t ph).flatMap (fun q => (marksOf (executed cfg.exceptions (stmtsOf t q))).map (fun n => (q, n)))
+
+def failuresUpTo (cfg : Cfg) (plugins : List Plugin) (t : Test) (ph : Phase) : List FailRec :=
+  preFailures cfg plugins t ++ (phasesUpTo cfg t ph).flatMap (fun q => phaseFailures cfg t (stmtsOf t q))
+
 /-- tests selected by the filters, and those of them that run (not ignored, or `-ri`) -/
 def selected (cfg : Cfg) (tests : List Test) : List Test := tests.filter (shouldRun cfg)
 def running (cfg : Cfg) (tests : List Test) : List Test := (selected cfg tests).filter (willRun cfg)
@@ -124,8 +164,17 @@ def Ev.enter? : Ev → Option Phase
   | .enter ph _ => some ph
   | _ => none
 
-def Ev.summary? : Ev → Option Result
-  | .summary r => some r
+def Ev.summary? : Ev → Option (Result × Nat)
+  | .summary r time => some (r, time)
+  | _ => none
+
+def Ev.clock? : Ev → Option Nat
+  | .clock v => some v
+  | _ => none
+
+/-- a plain console string (one `print` call outside failure records and the summary) -/
+def Ev.tok? : Ev → Option String
+  | .tok s => some s
   | _ => none
 
 def Ev.ended? : Ev → Option (Int × Option String × Bool)
@@ -135,7 +184,9 @@ def Ev.ended? : Ev → Option (Int × Option String × Bool)
 def failuresOf (evs : List Ev) : List FailRec := evs.filterMap Ev.failure?
 def marksIn (evs : List Ev) : List (Phase × Nat) := evs.filterMap Ev.mark?
 def entersOf (evs : List Ev) : List Phase := evs.filterMap Ev.enter?
-def summariesOf (evs : List Ev) : List Result := evs.filterMap Ev.summary?
+def summariesOf (evs : List Ev) : List (Result × Nat) := evs.filterMap Ev.summary?
+def clocksOf (evs : List Ev) : List Nat := evs.filterMap Ev.clock?
+def plainToksOf (evs : List Ev) : List String := evs.filterMap Ev.tok?
 def endedOf (evs : List Ev) : List (Int × Option String × Bool) := evs.filterMap Ev.ended?
 
 /-! ## reading the printed text back -/
@@ -160,22 +211,30 @@ def parseTail (loc : String × String) (name : String) (testLoc : Option (String
   | "\n" :: "\t" :: msg :: "\n\n" :: _ => some ⟨loc.1, loc.2, name, msg, testLoc⟩
   | _ => none
 
-/-- a failure record that starts at the head of the token list -/
-def parseFailureAt (toks : List String) : Option Printed :=
-  match parseLoc toks with
-  | some (loc1, " Failure in " :: name :: rest) =>
-    (match parseLoc rest with
-     | some (loc2, rest2) => parseTail loc2 name (some loc1) rest2
-     | none => parseTail loc1 name none rest)
-  | _ => none
+/-- every failure record contains this string exactly once, right after its (first) location -/
+def failureMarker : String := " Failure in "
+
+/-- read the record around a `" Failure in "`: `before` = the strings printed before it, most
+    recent first; `after` = the strings printed after it -/
+def readRecord (before after : List String) : Option Printed :=
+  match before, after with
+  | e :: c2 :: l :: c1 :: f :: nl :: _, name :: rest =>
+    if nl = "\n" ∧ c1 = ":" ∧ c2 = ":" ∧ e = " error:" then
+      (match parseLoc rest with
+       | some (loc2, rest2) => parseTail loc2 name (some (f, l)) rest2
+       | none => parseTail (f, l) name none rest)
+    else none
+  | _, _ => none
+
+/-- the reader of the whole console text: every `" Failure in "` is read with its surroundings -/
+def scanFrom : List String → List String → List Printed
+  | _, [] => []
+  | before, t :: rest =>
+    if t = failureMarker then (readRecord before rest).toList ++ scanFrom (t :: before) rest
+    else scanFrom (t :: before) rest
 
 /-- all failure records in a console text (given as the list of printed strings) -/
-def scanFailures : List String → List Printed
-  | [] => []
-  | t :: rest =>
-    match parseFailureAt (t :: rest) with
-    | some p => p :: scanFailures rest
-    | none => scanFailures rest
+def scanFailures (toks : List String) : List Printed := scanFrom [] toks
 
 /-- what a record must look like on the console -/
 def FailRec.printed (r : FailRec) : Printed :=
@@ -191,11 +250,12 @@ structure PrintedSummary where
   checks    : String
   ignored   : String
   filtered  : String
+  time      : String
 deriving Repr, DecidableEq, Inhabited
 
 def parseCounts (ok : Bool) (failures : Option String) : List String → Option PrintedSummary
-  | tc :: " tests, " :: rc :: " ran, " :: cc :: " checks, " :: ic :: " ignored, " :: fc :: " filtered out, " :: _ :: " ms)" :: _ =>
-    some ⟨ok, failures, tc, rc, cc, ic, fc⟩
+  | tc :: " tests, " :: rc :: " ran, " :: cc :: " checks, " :: ic :: " ignored, " :: fc :: " filtered out, " :: tm :: " ms)" :: _ =>
+    some ⟨ok, failures, tc, rc, cc, ic, fc, tm⟩
   | _ => none
 
 /-- a summary that starts at the head of the token list -/
@@ -218,20 +278,30 @@ def scanSummaries : List String → List PrintedSummary
     | some p => p :: scanSummaries rest
     | none => scanSummaries rest
 
-/-- the summary a repetition with counts `r` must print -/
-def Result.printedSummary (r : Result) : PrintedSummary :=
-  { ok := decide r.ok,
+/-- the summary a repetition with counts `r` and elapsed time `time` must print -/
+def Result.printedSummary (r : Result) (time : Nat) : PrintedSummary :=
+  { time := toString time,
+    ok := decide r.ok,
     failures := if r.failureCount = 0 then none else some (toString r.failureCount),
     tests := toString r.testCount, ran := toString r.runCount, checks := toString r.checkCount,
     ignored := toString r.ignoredCount, filtered := toString r.filteredOutCount }
 
+/-- the strings the reader keys on -/
+def markers : List String := [" Failure in ", "OK (", "Errors ("]
+
+/-- a failure record whose free strings (message, file names, test name) cannot be mistaken for a
+    marker; a message that is a lone ":" is excluded because the reader could not tell it from the
+    start of a second location -/
+def FailRec.clean (r : FailRec) : Prop :=
+  r.msg ≠ ":" ∧ r.msg ∉ markers ∧ r.file ∉ markers ∧ r.testFile ∉ markers ∧ r.testName ∉ markers
+
 /-- the console text of an event list: the strings handed to `print`, in order -/
-def Ev.toks : Ev → List String
+def Ev.toks (color : Bool) : Ev → List String
   | .tok s => [s]
   | .failure r => failureToks r
-  | .summary r => summaryToks r
+  | .summary r time => summaryToks color r time
   | _ => []
 
-def toksOf (evs : List Ev) : List String := evs.flatMap Ev.toks
+def toksOf (color : Bool) (evs : List Ev) : List String := evs.flatMap (Ev.toks color)
 
 end Runner
